@@ -108,6 +108,11 @@ impl X509Certificate {
 		Ok((key_pair, cert))
 	}
 
+	pub fn has_public_key_of(&self, key_pair: &KeyPair) -> Result<bool, Error> {
+		let public_key = self.inner_cert.public_key()?;
+		Ok(public_key.public_eq(&key_pair.inner_key))
+	}
+
 	pub fn expires_in(&self) -> Result<Duration, Error> {
 		let now = Asn1Time::days_from_now(0)?;
 		let not_after = self.inner_cert.not_after();
